@@ -50,6 +50,7 @@ def gen_history(rng: random.Random) -> dict:
             ops.append({'op': 'restart'})
         else:
             ops.append({'op': rng.choice(MODES), 'target': target, 'gen': rng.choice([None, None, rng.randint(0, 5)]),
+                        'ghost': rng.random() < 0.08,
                         'interleave': round(rng.random(), 3) if rng.random() < 0.3 else None})
     return {'releases': releases, 'ops': ops}
 
@@ -243,6 +244,19 @@ class Run:
             return
         gens = self.model[target]
         if not gens:
+            return
+        if op.get('ghost'):
+            # an explicit generation that was never committed: the action must be refused, never run the actors bare
+            ghost = len(gens) + 1 + (op['gen'] or 0) % 3
+            res = self.incarnation().call(kind, {'project': project, 'release': release, 'generation': ghost,
+                                                 'token': 900 + idx})
+            self.stats['fault:nonexistent-generation-requested'] += 1
+            if res.ok:
+                bare = [r['actor'] for r in res.value['log'] if r.get('event') == 'apply' and r.get('state') is None
+                        and r['actor'] in set(self.persistent(target))]
+                raise base.Violation('no-state', f'op{idx} {kind} {target} generation {ghost} (never committed; '
+                                                 f'{len(gens)} exist): the action ran, actors {sorted(set(bare))} were '
+                                                 f'applied without any state', mode=kind)
             return
         generation = len(gens) if op['gen'] is None else 1 + op['gen'] % len(gens)
         args = {'project': project, 'release': release, 'generation': None if op['gen'] is None else generation,
